@@ -12,7 +12,7 @@ POOL = 8
 
 def _pipeline_conformance(ctx, tier, seed):
     from driver import pipeline_conf
-    return pipeline_conf.run(ctx, tier, seed, 'MC_C08', None, 300)
+    return pipeline_conf.run(ctx, tier, seed, 'MC_C08', 'MC_C08', 300)
 
 
 def conformance(tier, seed):
@@ -21,7 +21,10 @@ def conformance(tier, seed):
 
 
 def generators(tier, seed):
-    return [dict(module="MC_C08", workers=2)]
+    # the fixed world W7, then pseudo-random trees (quick: 1500 sampled scenarios over 2 trees, thorough: 6 trees)
+    if tier == "quick":
+        return [dict(module="MC_C08", workers=2), dict(module="MC_C08", cfg="MC_C08_r", workers=2, limit=1500)]
+    return [dict(module="MC_C08", workers=4), dict(module="MC_C08", cfg="MC_C08_rt", workers=4)]
 
 MANIFEST = dict(
     design_ref="DESIGN.md §5 C08",
